@@ -213,7 +213,9 @@ Upd(hh, pre, e, post) ==
                        !.inflight = Put(@, e.r, infl /\ ~usableAny, FALSE),
                        !.openH2 = Put(@, e.r, oh2 /\ ReuseAsserted(hh), FALSE),
                        !.reserved = Put(@, e.r, res, 0),
-                       !.own = IF ~usableAny /\ ~infl /\ e.res # "Panicked" THEN @ \cup {e.r} ELSE @,
+                       \* (the pool's own marker is consulted too: the monitor does not always know an owner - a request whose
+                       \*  idle candidates had all expired is one, but expiry is only known within a real-time bracket)
+                       !.own = IF ~usableAny /\ ~infl /\ ~(e.o \in 1..Len(pre.cing) /\ pre.cing[e.o]) /\ e.res # "Panicked" THEN @ \cup {e.r} ELSE @,
                        !.att = IF e.h2 /\ ~usableAny /\ ~infl /\ e.res # "Panicked" THEN @ \cup {e.r} ELSE @]
     [] e.e = "Poll" ->
          LET ownDial == {d \in 1..NConnO(pre) : pre.conn[d].by = e.r /\ d # e.c /\ pre.conn[d].dial \in {"connecting", "handshaking"}}
